@@ -799,7 +799,7 @@ def bl3(ctx, R):
         raise AnchorMissing("byte-order derivations from the ToC mask (found %d, expected >= 2)" % derivs)
     # the lead-in parse and the metadata parse each derive the byte order themselves
     for q in ("reader.TdmsReader._read_lead_in", "tdms_segment.TdmsSegment.read_segment_objects"):
-        if q not in deriving:
+        if q not in deriving and not (set(ctx.callgraph().reachable([prog.func(q).qual])) & deriving):
             raise AnchorMissing("%s: byte-order derivation from the ToC mask" % q)
     # data reader constructors receive a derived endianness (third constructor parameter)
     gdr = prog.func("tdms_segment.TdmsSegment._get_data_reader")
